@@ -178,8 +178,21 @@ def run(ctx):
         state_form = str(rng.choice(["ints", "ints", "ints", "np.int64 list", "ndarray", "tuple"]))
         ctx.bucket("states_built_from:" + state_form)
 
+        wide = rng.random() < 0.06
+        if wide:
+            # wide registers: states that differ only on a few 'hot' modes, among them the highest-numbered ones
+            k = int(rng.choice([31, 32, 33, 63, 64, 65, 66, 70, 100, 130]))
+            base_occ = (rng.random(k) < 0.1).astype(int) * rng.integers(1, max_occ + 1, size=k)
+            hot = np.unique(np.concatenate([rng.choice(k, size=3), [k - 1, k - 2, 0], rng.choice(np.arange(k // 2, k), size=2)]))
+            ctx.bucket("wide_states")
+            if k > 64:
+                ctx.bucket("states_wider_than_64_modes")
+
         def rs():
             occ = rng.integers(0, max_occ + 1, size=k)
+            if wide:
+                occ = base_occ.copy()
+                occ[hot] = rng.integers(0, max_occ + 1, size=len(hot))
             if state_form == "np.int64 list":
                 return State([np.int64(x) for x in occ])
             if state_form == "ndarray":
